@@ -839,49 +839,112 @@ func (c *Ctx) c02Pop3() {
 	for _, fn := range pkgFuncs(p, "pkg/server/pop3") {
 		fn := fn
 		var scanners []*ssa.Call
+		ctorBuf := map[*ssa.Call]*ssa.Call{} // scanner built by a helper: the Buffer call inside it
+		ctorOf := map[*ssa.Call]bool{}
+		isMsgSource := func(v ssa.Value) bool {
+			tr := newByteTracer(c)
+			ok, _ := onlyKinds(tr.trace(v, 0, map[ssa.Value]bool{}), "msgsource")
+			return ok
+		}
 		eng.EachInstr(fn, func(in ssa.Instruction) {
-			if call, ok := in.(*ssa.Call); ok && eng.CalleeName(call.Common()) == "bufio.NewScanner" {
-				tr := newByteTracer(c)
-				os := tr.trace(call.Call.Args[0], 0, map[ssa.Value]bool{})
-				if ok, _ := onlyKinds(os, "msgsource"); ok {
+			call, ok := in.(*ssa.Call)
+			if !ok {
+				return
+			}
+			if eng.CalleeName(call.Common()) == "bufio.NewScanner" {
+				if isMsgSource(call.Call.Args[0]) {
 					scanners = append(scanners, call)
+				}
+				return
+			}
+			// a helper of the package that builds the scanner over its parameter
+			// (newLineScanner(r)): the scanner is the helper's result
+			if !isNamedPtr(call.Type(), "bufio", "Scanner") {
+				return
+			}
+			rets, g := eng.ReturnedValues(call, 0)
+			if g == nil || len(rets) == 0 || !strings.HasSuffix(eng.FuncPkgPath(g), "/pkg/server/pop3") {
+				return
+			}
+			var nc *ssa.Call
+			for _, rv := range rets {
+				x, ok := rv.(*ssa.Call)
+				if !ok || eng.CalleeName(x.Common()) != "bufio.NewScanner" || nc != nil && nc != x {
+					return
+				}
+				nc = x
+			}
+			prm, ok := nc.Call.Args[0].(*ssa.Parameter)
+			if !ok {
+				return
+			}
+			pi := eng.ParamIndex(prm)
+			if pi < 0 || pi >= len(call.Call.Args) || !isMsgSource(call.Call.Args[pi]) {
+				return
+			}
+			scanners = append(scanners, call)
+			ctorOf[call] = true
+			for _, ref := range *nc.Referrers() {
+				if bc, ok := ref.(*ssa.Call); ok && eng.CalleeName(bc.Common()) == "(*bufio.Scanner).Buffer" {
+					allRets := true
+					eng.EachInstr(g, func(gi ssa.Instruction) {
+						if ret, ok := gi.(*ssa.Return); ok && !eng.Dominates(bc, ret) {
+							allRets = false
+						}
+					})
+					if allRets {
+						ctorBuf[call] = bc
+					}
 				}
 			}
 		})
 		for _, sc := range scanners {
 			n++
 			cons := shortFn(fn)
-			// the scanner may be handed on: to a helper of the package, or to a callback the
-			// callers of fn supply (relay(scanner)); the scan loop then lives there
+			// the scanner may be handed on: to a helper of the package (and on from there), or
+			// to a callback the callers of fn supply (relay(scanner)); the scan loop then lives there
 			type scanUse struct {
 				fn  *ssa.Function
 				v   ssa.Value
 				via ssa.Instruction // the call in fn that hands the scanner on (nil: fn itself)
 			}
 			uses := []scanUse{{fn, sc, nil}}
-			for _, ref := range *sc.Referrers() {
-				call, ok := ref.(*ssa.Call)
-				if !ok || call.Call.IsInvoke() {
+			seenUse := map[ssa.Value]bool{sc: true}
+			for ui := 0; ui < len(uses) && ui < 24; ui++ {
+				cur := uses[ui]
+				if cur.v.Referrers() == nil {
 					continue
 				}
-				for ai, a := range call.Call.Args {
-					if a != ssa.Value(sc) {
+				for _, ref := range *cur.v.Referrers() {
+					call, ok := ref.(*ssa.Call)
+					if !ok || call.Call.IsInvoke() {
 						continue
 					}
-					if g := eng.StaticCallee(call.Common()); g != nil {
-						if eng.InModule(g) && len(g.Blocks) > 0 && ai < len(g.Params) {
-							uses = append(uses, scanUse{g, g.Params[ai], call})
+					via := cur.via
+					if via == nil {
+						via = call
+					}
+					for ai, a := range call.Call.Args {
+						if a != cur.v {
+							continue
 						}
-						continue
-					}
-					if prm, ok := call.Call.Value.(*ssa.Parameter); ok && prm.Parent() == fn {
-						pi := eng.ParamIndex(prm)
-						for _, cs := range p.StaticCallSites(fn) {
-							if pi < 0 || pi >= len(cs.Args) {
-								continue
+						if g := eng.StaticCallee(call.Common()); g != nil {
+							if eng.InModule(g) && len(g.Blocks) > 0 && ai < len(g.Params) && !seenUse[g.Params[ai]] {
+								seenUse[g.Params[ai]] = true
+								uses = append(uses, scanUse{g, g.Params[ai], via})
 							}
-							if h, _, ok := eng.FuncValueOf(cs.Args[pi]); ok && h != nil && ai < len(h.Params) {
-								uses = append(uses, scanUse{h, h.Params[ai], call})
+							continue
+						}
+						if prm, ok := call.Call.Value.(*ssa.Parameter); ok && prm.Parent() == cur.fn {
+							pi := eng.ParamIndex(prm)
+							for _, cs := range p.StaticCallSites(cur.fn) {
+								if pi < 0 || pi >= len(cs.Args) {
+									continue
+								}
+								if h, _, ok := eng.FuncValueOf(cs.Args[pi]); ok && h != nil && ai < len(h.Params) && !seenUse[h.Params[ai]] {
+									seenUse[h.Params[ai]] = true
+									uses = append(uses, scanUse{h, h.Params[ai], via})
+								}
 							}
 						}
 					}
@@ -911,7 +974,10 @@ func (c *Ctx) c02Pop3() {
 					}
 				}
 			}
-			if scan != nil && buf != nil {
+			if cb := ctorBuf[sc]; cb != nil {
+				buf = cb // raised inside the constructing helper, before the scanner exists here
+			}
+			if scan != nil && buf != nil && !ctorOf[sc] {
 				// every hand-over must come after the limit was raised as well
 				for _, u := range uses {
 					if u.via != nil && !eng.Dominates(buf, u.via) {
@@ -922,7 +988,7 @@ func (c *Ctx) c02Pop3() {
 			switch {
 			case scan == nil:
 				r.Undecided("C02/POP3/lines", cons+":limit", p.InstrPos(sc), "scanner is never scanned")
-			case buf == nil || !eng.Dominates(buf, scanAt):
+			case buf == nil || !ctorOf[sc] && !eng.Dominates(buf, scanAt):
 				r.Bad("C02/POP3/lines", cons+":limit", p.InstrPos(sc), "bufio.Scanner over the message source keeps the default token limit (64 KiB): a longer line makes Scan fail, the response ends with '.' followed by -ERR and the client receives a truncated message")
 			default:
 				if k, ok := eng.ConstInt(buf.Call.Args[2]); ok && k >= 1<<30 {
